@@ -4,7 +4,7 @@
    assumptions; statistical tests in the thorough tier support them.  Proved: for every accepted draw the pair is valid; for a fixed g1 the map g2 -> partner is exactly
    two-to-one onto the anticommuting strings (so uniform raw bits give a uniform partner); EXACT uniformity of random_clifford on the symplectic groups for N = 1 (6 matrices,
    12 draws) and N = 2 (720 = |Sp(4,2)| matrices, 2880 draws) by complete enumeration; the N = 2 sampler entangles. *)
-From PC Require Import Model.Base Model.Pauli Model.CMap Model.Diag Model.Random Proofs.RandomFacts Proofs.UniformFacts Proofs.DiagFacts Proofs.RandomCliffordFacts.
+From PC Require Import Model.Base Model.Pauli Model.CMap Model.Diag Model.Random Proofs.RandomFacts Proofs.UniformFacts Proofs.DiagFacts Proofs.RandomCliffordFacts Proofs.RandomBijectionFacts.
 
 Theorem C16_pair_anticommutes : forall g1 g2, length g2 = length g1 -> is_id_str g1 = false -> acq g1 (snd (fix_pair g1 g2)) = 1.
 Proof. exact fix_pair_anticommute. Qed.
@@ -63,3 +63,17 @@ Theorem C16_random_clifford_keeps_the_drawn_pair : forall n g1 g2 rest, (1 <= n)
   nth 0 (random_clifford_from n ((g1, g2) :: rest)) [] = g1 /\ nth 1 (random_clifford_from n ((g1, g2) :: rest)) [] = g2.
 Proof. exact random_clifford_first_pair. Qed.
 Print Assumptions C16_random_clifford_keeps_the_drawn_pair.
+(* EXACT UNIFORMITY FOR EVERY N: the recursion is a BIJECTION from accepted draw sequences (exactly n pairs, the j-th an anticommuting pair on n-j qubits) onto the
+   symplectic tables.  So if every level draws its pair uniformly among the anticommuting pairs of that width -- which fix_pair delivers from uniform bits, being exactly
+   two-to-one (above) -- every symplectic table is produced by exactly one draw sequence: the output is uniform over the symplectic group.  (Sp(2,2) and Sp(4,2) are also
+   counted exhaustively above.)  What stays assumed: that the generators of numba / numpy / torch deliver independent fair bits. *)
+Theorem C16_random_clifford_is_a_bijection : forall n, (1 <= n)%nat ->
+  forall rows, sym_rows n n rows -> exists! p, draw_ok n p /\ random_clifford_from n p = rows.
+Proof. exact random_clifford_bijection. Qed.
+Print Assumptions C16_random_clifford_is_a_bijection.
+Theorem C16_random_clifford_injective : forall n p q, draw_ok n p -> draw_ok n q -> random_clifford_from n p = random_clifford_from n q -> p = q.
+Proof. exact random_clifford_injective. Qed.
+Print Assumptions C16_random_clifford_injective.
+Theorem C16_random_clifford_onto_the_symplectic_tables : forall n rows, (1 <= n)%nat -> sym_rows n n rows -> exists p, draw_ok n p /\ random_clifford_from n p = rows.
+Proof. exact random_clifford_surjective. Qed.
+Print Assumptions C16_random_clifford_onto_the_symplectic_tables.
